@@ -1231,6 +1231,21 @@ class Module(ABC):
             synapse_states + self.synapse_current_names,
         )
 
+    def _edge_inds_to_type_inds(self, state_name: str, inds: np.ndarray) -> np.ndarray:
+        """Convert global edge indices into indices within the synapse type.
+
+        `.record()` and `.clamp()` identify synapses by their global edge index. During
+        simulation, however, the states and currents of synapses are stored in one
+        array per synapse type (which only contains the synapses of that type).
+        Indices of compartment states are returned unchanged.
+        """
+        _, edge_states = self.base._get_state_names()
+        if state_name in edge_states:
+            type_inds = self.base.edges.groupby("type").rank()["global_edge_index"]
+            type_inds = (type_inds.astype(int) - 1).to_numpy()
+            return type_inds[np.asarray(inds)]
+        return inds
+
     def get_parameters(self) -> List[Dict[str, jnp.ndarray]]:
         """Get all trainable parameters.
 
@@ -1840,7 +1855,8 @@ class Module(ABC):
         # Clamp for channels and synapses.
         for key in externals.keys():
             if key not in ["i", "v"]:
-                u[key] = u[key].at[external_inds[key]].set(externals[key])
+                inds = self._edge_inds_to_type_inds(key, external_inds[key])
+                u[key] = u[key].at[inds].set(externals[key])
 
         # Voltage steps.
         cm = params["capacitance"]  # Abbreviation.
